@@ -156,10 +156,16 @@ func runPipeline(t testing.TB, tr *tracer, o srvOpts, sc scenario, salt int, dif
 		order int
 		rw    bool
 		off   int
+		sig   int
 	}
+	// every third scenario reuses request ids (legal in the protocol: ids are the client's business)
+	dupIDs := salt%3 == 0
 	ops := make([]op, len(sc.Prog))
 	for i, it := range sc.Prog {
 		id := uint32(100 + i)
+		if dupIDs {
+			id = uint32(100 + i%2)
+		}
 		order := base + i + 1
 		slot := it.H
 		if slot < 1 || slot > nSlots {
@@ -169,19 +175,19 @@ func runPipeline(t testing.TB, tr *tracer, o srvOpts, sc scenario, salt int, dif
 		switch it.K {
 		case "R":
 			off := uint64(i * opStride)
-			ops[i] = op{fRead(id, h, off, opLen), "R:" + itoa(int(off)), order, true, int(off)}
+			ops[i] = op{fRead(id, h, off, opLen), "R:" + itoa(int(off)), order, true, int(off), int(posData(int(off)+1, byte(slot))[off])}
 		case "W":
 			off := uint64(wrBase + i*opStride)
 			data := bytes.Repeat([]byte{byte(200 + i%50)}, opLen)
-			ops[i] = op{fWrite(id, h, off, data), "W:" + itoa(int(off)), order, true, int(off)}
+			ops[i] = op{fWrite(id, h, off, data), "W:" + itoa(int(off)), order, true, int(off), -1}
 		case "B": // read longer than the server's maximum payload, on the large file (slot 2)
 			off := uint64(8192 + i*opStride)
 			n := []uint32{40000, 65536, 32769, 200000}[i%4]
-			ops[i] = op{fRead(id, handles[1], off, n), "R:" + itoa(int(off)), order, true, int(off)}
+			ops[i] = op{fRead(id, handles[1], off, n), "R:" + itoa(int(off)), order, true, int(off), int(posData(int(off)+1, 2)[off])}
 		case "C":
-			ops[i] = op{fClose(id, h), "", order, false, -1}
+			ops[i] = op{fClose(id, h), "", order, false, -1, -1}
 		default:
-			ops[i] = op{miscFrame(id, salt+i*7, o.kind, root, handles, diff), "", order, false, -1}
+			ops[i] = op{miscFrame(id, salt+i*7, o.kind, root, handles, diff), "", order, false, -1, -1}
 		}
 		if ops[i].rw && o.kind == "server" {
 			ops[i].key = "o:" + itoa(order)
@@ -201,7 +207,7 @@ func runPipeline(t testing.TB, tr *tracer, o srvOpts, sc scenario, salt int, dif
 		s.order++
 		s.reqs = append(s.reqs, f)
 		s.mu.Unlock()
-		tr.emit("Req", kv{"o": p.order, "id": int(f.ID), "typ": f.T(), "h": f.Handle, "wf": true, "k": sc.Prog[i].K, "slot": sc.Prog[i].H, "off": p.off})
+		tr.emit("Req", kv{"o": p.order, "id": int(f.ID), "typ": f.T(), "h": f.Handle, "wf": true, "k": sc.Prog[i].K, "slot": sc.Prog[i].H, "off": p.off, "sig": p.sig})
 		s.c2s.Write(p.frame)
 	}
 	if sc.End == "eof" {
